@@ -1,3 +1,4 @@
+import RpycModel.Gen.Proto
 /-
 L6 — the lifecycle automaton of ONE side of a connection (C11).
 
@@ -36,6 +37,7 @@ inductive CloseExc where
   | user                 -- the `before_closed` hook's exception (`close_catchall` off)
   | attributeError       -- `_cleanup` ran a second time: `self._local_root` is None
   | hook                 -- the service's `on_disconnect` hook raised (after `_cleanup`'s `finally` released everything)
+  | channel              -- the stream's own `close()` raised inside `_cleanup`
   deriving DecidableEq, Repr
 
 /-- how the `try:` suite of `close()` ended -/
@@ -59,43 +61,52 @@ structure Life where
   fromPeer : List (Nat × Nat)        -- ghost: (request, payload) of the responses received from the peer
   closeRaised : List CloseExc        -- ghost: what `close()` calls raised
   hookRaises : Bool                  -- configuration: this side's `on_disconnect` hook raises (user code)
+  chanCloseRaises : Bool             -- configuration: this side's stream raises from its own `close()` (once)
   deriving Repr
 
-def Life.initWith (hookRaises : Bool) : Life :=
+def Life.initWith (hookRaises : Bool) (chanCloseRaises : Bool := false) : Life :=
   { closed := false, inClose := false, chanClosed := false, hookRuns := 0, cleaned := false,
     tablesCleared := false, issued := [], pending := [], blocked := [], outcomes := [], fromPeer := [],
-    closeRaised := [], hookRaises := hookRaises }
+    closeRaised := [], hookRaises := hookRaises, chanCloseRaises := chanCloseRaises }
 
-/-- the initial state of a side whose disconnect hook returns normally -/
-def Life.init : Life := Life.initWith false
+/-- the initial state of a side whose disconnect hook returns normally and whose stream closes quietly -/
+def Life.init : Life := Life.initWith false false
 
 /-- ```
 def _cleanup(self, _anyway=True):
     if self._closed and not _anyway: return        -- never taken: every caller passes _anyway=True
     self._closed = True
-    self._channel.close()
-    try:     self._local_root.on_disconnect(self)  -- AttributeError on a second run: _local_root is None
+    root, self._local_root = self._local_root, None
+    try:
+        try:     self._channel.close()             -- the stream's own close() may raise
+        finally:
+            if root is not None: root.on_disconnect(self)      -- once: not on a second run
     finally: self._request_callbacks.clear(); self._local_objects.clear(); self._proxy_cache.clear(); …
-             self._local_root = None; del self._HANDLERS
 ```
-The clearing is in a `finally`: it happens whatever the hook does; a hook that raises (`hookRaises`) makes
-`_cleanup` raise that exception afterwards (see `finishClose`).  Returns the state and whether this was a
-second run (AttributeError). -/
-def cleanup (l : Life) : Life × Bool :=
-  if l.cleaned then ({ l with closed := true, chanClosed := true }, true)
-  else ({ l with closed := true, chanClosed := true, hookRuns := l.hookRuns + 1, cleaned := true,
-                 tablesCleared := true }, false)
+Two facts about it are MEASURED on the live class by the constants generator: `Gen.Proto.cleanupIdempotent` (a second
+run returns quietly; before the repair it raised AttributeError) and `Gen.Proto.cleanupSurvivesChannelCloseError`
+(when the stream's close() raises, the hook still runs and everything is still released; before the repair
+`_channel.close()` sat outside the `finally` and neither happened).  Returns the state and what `_cleanup` raises. -/
+def cleanup (l : Life) : Life × Option CloseExc :=
+  if l.cleaned then
+    ({ l with closed := true, chanClosed := true },
+     if Gen.Proto.cleanupIdempotent then none else some .attributeError)
+  else if l.chanCloseRaises && !Gen.Proto.cleanupSurvivesChannelCloseError then
+    -- (unrepaired) the stream's close() raises before anything else: the flag is set, nothing is released
+    ({ l with closed := true, chanClosed := true }, some .channel)
+  else
+    ({ l with closed := true, chanClosed := true, hookRuns := l.hookRuns + 1, cleaned := true,
+              tablesCleared := true },
+     if l.hookRaises then some .hook else if l.chanCloseRaises then some .channel else none)
 
 /-- the rest of `close()` once its `try:` suite has ended with `r`:
 `except EOFError: pass` / `except Exception: if not close_catchall: raise` / `finally: self._cleanup()`.
-Returns the state and what the call raises (an exception from the `finally` — AttributeError of a second
-`_cleanup`, or the disconnect hook's own — replaces the `before_closed` hook's). -/
+Returns the state and what the call raises (an exception from the `finally` replaces the `before_closed` hook's). -/
 def finishClose (r : TryRes) (l : Life) : Life × Option CloseExc :=
   match cleanup l with
-  | (l', true) => ({ l' with inClose := false }, some .attributeError)
-  | (l', false) =>
-    if l.hookRaises then ({ l' with inClose := false }, some .hook)      -- raised out of the `finally`
-    else match r with
+  | (l', some e) => ({ l' with inClose := false }, some e)
+  | (l', none) =>
+    match r with
     | .hookRaised false => ({ l' with inClose := false }, some .user)
     | _ => ({ l' with inClose := false }, none)
 
